@@ -147,6 +147,9 @@ def main(argv=None):
             return 1
         return 0
 
+    import shutil
+
+    shutil.rmtree(os.path.join(VERIF, "replay", prop), ignore_errors=True)
     REG = load_contracts()
     specs = [s for s in REG.values() if prop in s.props and (a.only is None or a.only in s.name)]
     if not specs:
